@@ -294,4 +294,9 @@ def run(repo, chk):
                 chk.expect(tail == wantt, 'C17.D6', key + ' output', f'{tail}; expected count = (fp - 1w) - pointer, then the state byte loop', STDLIB)
         else:
             chk.fail('C17.D6', key + ' radix', f'expected two div and two mod instructions, found {len(divs)}/{len(mods)}', STDLIB)
+    # ---------------- D7 the data that write(string) / write(byte[]) reads ---------------------------
+    chk.rule('C17.D7', 'the bytes and lengths the write routines read are the ones the program denotes: escaping of constants, '
+                       'string table length prefix, string-to-byte-array conversion (shared with C13.B0/B2)')
+    from . import c13
+    c13.run(repo, Remap(chk, {'C13.B0': 'C17.D7', 'C13.B2': 'C17.D7'}))
     chk.not_decided = ['the digits printed for every representable integer (VM arithmetic)']
